@@ -122,7 +122,7 @@ theorem BufInv.preserved : Preserved BufInv where
   same hs h := BufInv.of_eq hs.2.2.1 h
   tick _ h := h
   finish w p v st h := BufInv.of_eq (by simp) h
-  clear w p f _ _ h := BufInv.of_eq (by simp) h
+  clear w p f _ _ _ h := BufInv.of_eq (by simp) h
   exec w p c _ h := by
     by_cases hm : (cmdMask c).bufs = false
     · exact BufInv.of_eq ((execCmd_fp w p c).2.2.1 hm) h
